@@ -432,18 +432,34 @@ def crash_cases(total_len):
 
 
 def run_crash_part(ctx, model_lines, model_expect, disagreements):
+    old_dwb = sys.dont_write_bytecode
     world = World()
     try:
-        for prior in ("none", "old"):
+        for prior in ("none", "old", "bytecode-of-a-deleted-module"):
             # reference run: how many bytes does the new module have?
-            for (k, mode, arg) in crash_cases(len(world.ref(2)) + 8):
+            plans = list(crash_cases(len(world.ref(2)) + 8))
+            if prior == "bytecode-of-a-deleted-module":
+                # whether the stale pair is accepted depends on the two generations having the same length (the time stamp written
+                # into a module varies in length) and falling into one second: the decisive crash point is tried several times
+                plans += [p_ for p_ in plans if p_[0] == 3 and p_[1] == "after"] * 11
+            for (k, mode, arg) in plans:
                 world.remove_module()
                 world.clean_temps()
+                sys.dont_write_bytecode = True
+                if prior == "bytecode-of-a-deleted-module":
+                    # the previous module is gone but the interpreter's bytecode cache of it is still there
+                    sys.dont_write_bytecode = False
+                    world.set_source(1, 1_800_000_000)
+                    construct(world)
+                    os.remove(world.modpath)
                 if prior == "old":
                     world.set_source(1, 1_800_000_000)
                     construct(world)
                     os.utime(world.modpath, (1_800_000_100, 1_800_000_100))
-                world.set_source(2, 1_800_000_200)          # newer than the module: rewrite is due
+                if prior == "bytecode-of-a-deleted-module":
+                    world.set_source(2, int(__import__("time").time()) - 100)   # the module is missing: rewrite is due; once written it is newer than the source
+                else:
+                    world.set_source(2, 1_800_000_200)          # newer than the module: rewrite is due
                 s = Session(world.moddir, world.modpath, plans={0: (k, mode, arg)})
                 _sess[0] = s
                 crashed = False
@@ -477,7 +493,7 @@ def run_crash_part(ctx, model_lines, model_expect, disagreements):
                 case["target_after_crash"] = st
                 case["temp_files"] = temps
                 # the property itself
-                allowed = ["-"] if prior == "none" else [("complete", 1)]
+                allowed = ["-"] if prior != "old" else [("complete", 1)]
                 allowed.append(("complete", 2))
                 if st not in allowed:
                     ctx.violation(case, "after the crash the module path holds neither nothing, the complete previous module nor the complete new one", tags=["c15.crash.partial"])
@@ -500,7 +516,7 @@ def run_crash_part(ctx, model_lines, model_expect, disagreements):
                 else:
                     sched.append("0 M %d" % arg)
                 old_len = len(world.ref(1))
-                t0 = "-" if prior == "none" else "1 %d" % old_len
+                t0 = "-" if prior != "old" else "1 %d" % old_len
                 model_lines.append("sched|%s|0 2 %d I|%s" % (t0, total, ",".join(sched)))
                 if st == "-":
                     obs_t = "-"
@@ -512,6 +528,7 @@ def run_crash_part(ctx, model_lines, model_expect, disagreements):
                 obs_temp = ",".join("0=2:%d:%d" % (sz, total) for _, sz in temps)
                 model_expect.append(("crash", case, "target=%s;temps=%s" % (obs_t, obs_temp)))
     finally:
+        sys.dont_write_bytecode = old_dwb
         world.close()
 
 
@@ -654,15 +671,22 @@ def run_decision_part(ctx, model_lines, model_expect, tier):
             for step in range(rng.randint(3, 12)):
                 r = rng.random()
                 if r < 0.35:
-                    rel = rng.choice(["newer", "older", "equal"])
+                    # (the comparison is between whole seconds: a source half a second past the module's second is not newer)
+                    rel = rng.choice(["newer", "older", "equal", "equal-and-a-half"])
                     ver += 1
                     base = int(_real["stat"](world.modpath).st_mtime) if os.path.exists(world.modpath) else M
-                    world.set_source(ver, base + {"newer": 7, "older": -7, "equal": 0}[rel])
+                    world.set_source(ver, base + {"newer": 7, "older": -7, "equal": 0, "equal-and-a-half": 0.5}[rel])
                     ops.append("S%d:%s" % (ver, rel))
-                elif r < 0.45:
+                elif r < 0.41:
                     world.remove_module()
                     gen_of_module = None
                     ops.append("D")
+                elif r < 0.45:
+                    # only the module file goes, the interpreter's bytecode cache of it stays behind
+                    if world.modpath and os.path.exists(world.modpath):
+                        os.remove(world.modpath)
+                    gen_of_module = None
+                    ops.append("Dm")
                 elif r < 0.55 and os.path.exists(world.modpath):
                     b = open(world.modpath, "rb").read()
                     st = _real["stat"](world.modpath)
